@@ -15,6 +15,7 @@
 import IgrisModel.C18.Lemmas
 import IgrisModel.C18.More
 import IgrisModel.C18.Round3
+import IgrisModel.C18.Round3b
 import IgrisModel.C07.Model
 namespace Igris.C18
 open Igris.Proto Spec
@@ -836,5 +837,61 @@ theorem b64DecodeFast_eq (s : List Byte) : b64DecodeFast s = b64Decode s := by
   have h := decLoopTR_eq s [] []
   simp only [List.reverse_nil] at h
   simp only [b64DecodeFast, b64Decode, h, List.reverse_reverse]
+
+/-! ## Round 3b: the fixed-width parsers on a mapped buffer (closes the `getD` gap of `hexAt`) -/
+
+/-- `hex_to_uint8(hex)` completes ⇔ 2 characters are mapped at `hex`; then it is `hexToUint8` -/
+theorem hexToUint8M_eq (t : List Byte) :
+    hexToUint8M t = if 2 ≤ t.length then some (hexToUint8 t) else none := by
+  simp only [hexToUint8M, hexToUint8, hexAtM_eq]
+  split <;> split <;> first | rfl | omega
+
+/-- `hex_to_uint16(hex)` completes ⇔ 4 characters are mapped -/
+theorem hexToUint16M_eq (t : List Byte) :
+    hexToUint16M t = if 4 ≤ t.length then some (hexToUint16 t) else none := by
+  simp only [hexToUint16M, hexToUint16, hexAtM_eq]
+  by_cases h : 4 ≤ t.length
+  · simp [h, show 0 + 1 < t.length by omega, show 2 + 1 < t.length by omega]
+  · simp only [h, if_false]
+    have : ¬ (2 + 1 < t.length) := by omega
+    simp [this]
+
+/-- `hex_to_uint32(hex)` completes ⇔ 8 characters are mapped -/
+theorem hexToUint32M_eq (t : List Byte) :
+    hexToUint32M t = if 8 ≤ t.length then some (hexToUint32 t) else none := by
+  simp only [hexToUint32M, hexToUint32, hexAtM_eq]
+  by_cases h : 8 ≤ t.length
+  · simp [h, show 0 + 1 < t.length by omega, show 2 + 1 < t.length by omega, show 4 + 1 < t.length by omega, show 6 + 1 < t.length by omega]
+  · simp only [h, if_false]
+    have : ¬ (6 + 1 < t.length) := by omega
+    simp [this]
+
+/-- `hex_to_uint64(hex)` completes ⇔ 16 characters are mapped -/
+theorem hexToUint64M_eq (t : List Byte) :
+    hexToUint64M t = if 16 ≤ t.length then some (hexToUint64 t) else none := by
+  simp only [hexToUint64M, hexToUint64, hexAtM_eq]
+  by_cases h : 16 ≤ t.length
+  · simp [h, show 0 + 1 < t.length by omega, show 2 + 1 < t.length by omega, show 4 + 1 < t.length by omega, show 6 + 1 < t.length by omega,
+      show 8 + 1 < t.length by omega, show 10 + 1 < t.length by omega, show 12 + 1 < t.length by omega, show 14 + 1 < t.length by omega]
+  · simp only [h, if_false]
+    have : ¬ (14 + 1 < t.length) := by omega
+    simp [this]
+
+/-- nothing behind the `2·sizeof` characters is used: a longer buffer gives the same value -/
+theorem hexToUint8_prefix (t r : List Byte) (hl : t.length = 2) : hexToUint8 (t ++ r) = hexToUint8 t := by
+  simp only [hexToUint8, hexAt_append t r 0 (by omega)]
+theorem hexToUint16_prefix (t r : List Byte) (hl : t.length = 4) : hexToUint16 (t ++ r) = hexToUint16 t := by
+  simp only [hexToUint16, hexAt_append t r 0 (by omega), hexAt_append t r 2 (by omega)]
+theorem hexToUint32_prefix (t r : List Byte) (hl : t.length = 8) : hexToUint32 (t ++ r) = hexToUint32 t := by
+  simp only [hexToUint32, hexAt_append t r 0 (by omega), hexAt_append t r 2 (by omega), hexAt_append t r 4 (by omega),
+    hexAt_append t r 6 (by omega)]
+theorem hexToUint64_prefix (t r : List Byte) (hl : t.length = 16) : hexToUint64 (t ++ r) = hexToUint64 t := by
+  simp only [hexToUint64, hexAt_append t r 0 (by omega), hexAt_append t r 2 (by omega), hexAt_append t r 4 (by omega),
+    hexAt_append t r 6 (by omega), hexAt_append t r 8 (by omega), hexAt_append t r 10 (by omega), hexAt_append t r 12 (by omega),
+    hexAt_append t r 14 (by omega)]
+
+-- non-vacuity: a 4-character text, and the same text in a longer buffer
+example : hexToUint16M [0x61, 0x42, 0x33, 0x44] = some 0xAB3D#16 ∧ hexToUint16M [0x61, 0x42, 0x33] = none := by decide
+example : hexToUint16 ([0x61, 0x42, 0x33, 0x44] ++ [0x46, 0x46]) = 0xAB3D#16 := by decide
 
 end Igris.C18
